@@ -414,6 +414,18 @@ pub fn scenarios(tier: &str) -> Vec<PyScenario> {
                                 x.history = h;
                                 out.push(x);
                             }
+                            // a resolution set through the wrapper's set_longest_valid_segment_fraction
+                            if let Spec::Rv { .. } | Spec::So2 { .. } | Spec::So3 { .. } = &v.spec {
+                                for fr in [0.2, 0.011] {
+                                    let mut x = base.clone();
+                                    x.id = format!("{}/frac{fr}", base.id);
+                                    match &mut x.spec {
+                                        Spec::Rv { frac, .. } | Spec::So2 { frac, .. } | Spec::So3 { frac, .. } => *frac = Some(fr),
+                                        _ => {}
+                                    }
+                                    out.push(x);
+                                }
+                            }
                             // the robot already stands in the goal: the goal sampler returns the start itself
                             if wi == 0 {
                                 for (dn, b) in [("at-goal-bias1", 1.0), ("at-goal-bias0.5", 0.5)] {
@@ -505,10 +517,72 @@ fn wrapper_cases() -> Vec<Value> {
         out.push(json!({"ctor": "SO3StateSpace", "centre": centre.iter().map(|c| fb(*c)).collect::<Vec<_>>(), "radius": fb(r), "ok": sp.is_ok(), "extent": sp.as_ref().ok().map(|s| fb(s.get_maximum_extent())), "dist": d,
             "q": quat([0.0, 0.0, 1.0], 100.0).iter().map(|c| fb(*c)).collect::<Vec<_>>()}));
     }
+    // distance over a pair lattice for every space kind (incl. compound and SE(3)) and bounded variants
+    out.extend(distance_lattice_cases());
     // state constructors
     for a in crate::lattice::so2_angles(true) {
         out.push(json!({"ctor": "SO2State", "value": fb(a), "stored": fb(SO2State::new(a).value)}));
         out.push(json!({"ctor": "SE2State", "x": fb(1.0), "y": fb(-2.0), "yaw": fb(a), "stored": fb(SE2State::new(1.0, -2.0, a).get_yaw())}));
+    }
+    out
+}
+
+/// What the Python constructors store for a value: SO2State(x) / SE2State(..., yaw) canonicalise the
+/// angle once (the other state types store their arguments as given).
+fn as_python_stores(v: &V) -> V {
+    match v {
+        V::So2(a) => V::So2(SO2State::new(*a).value),
+        V::Cmp(c) => V::Cmp(c.iter().map(as_python_stores).collect()),
+        other => other.clone(),
+    }
+}
+
+fn distance_cases_for<K: Kit>(kit: &'static str, spec: &Spec, lat: &[V]) -> Value {
+    let sp = K::build(spec);
+    let n = lat.len().min(14);
+    let mut pairs = Vec::new();
+    for i in 0..n {
+        for j in 0..n {
+            let d = sp.distance(&K::from_v(&as_python_stores(&lat[i])), &K::from_v(&as_python_stores(&lat[j])));
+            pairs.push(json!({"a": v_bits_json(&lat[i]), "b": v_bits_json(&lat[j]), "dist": fb(d)}));
+        }
+    }
+    json!({"ctor": "space-distances", "variant": kit, "space": spec_json(spec), "pairs": pairs})
+}
+
+/// like v_json but every number as its bit pattern (JSON cannot carry -0.0 / huge values faithfully)
+fn v_bits_json(v: &V) -> Value {
+    match v {
+        V::Rv(x) => json!({"rv": x.iter().map(|c| fb(*c)).collect::<Vec<_>>()}),
+        V::So2(a) => json!({"so2": fb(*a)}),
+        V::So3(q) => json!({"so3": q.iter().map(|c| fb(*c)).collect::<Vec<_>>()}),
+        V::Cmp(c) => json!({"cmp": c.iter().map(v_bits_json).collect::<Vec<_>>()}),
+    }
+}
+
+fn distance_lattice_cases() -> Vec<Value> {
+    use crate::lattice::*;
+    let mut out = Vec::new();
+    let so2_canon: Vec<V> = so2_canonical().into_iter().map(V::So2).collect();
+    out.push(distance_cases_for::<Rv>("RealVector", &Spec::Rv { dim: 2, bounds: Some(vec![(-5.0, 5.0), (0.0, 4.0)]), frac: None }, &rv_lattice(2)));
+    out.push(distance_cases_for::<Rv>("RealVector", &Spec::Rv { dim: 3, bounds: None, frac: None }, &rv_lattice(3)));
+    out.push(distance_cases_for::<So2>("SO2", &Spec::So2 { bounds: None, frac: None }, &so2_canon));
+    out.push(distance_cases_for::<So2>("SO2", &Spec::So2 { bounds: Some((-3.0, 3.0)), frac: None }, &so2_canon));
+    out.push(distance_cases_for::<So3>("SO3", &Spec::So3 { bounds: None, frac: None }, &so3_lattice(false)));
+    out.push(distance_cases_for::<So3>("SO3", &Spec::So3 { bounds: Some(([0.0, 0.0, 0.0, 1.0], 1.0)), frac: None }, &so3_lattice(false)));
+    let cparts = vec![Spec::Rv { dim: 2, bounds: Some(vec![(-5.0, 5.0), (-5.0, 5.0)]), frac: None }, Spec::So2 { bounds: None, frac: None }];
+    for w in [vec![1.0, 0.5], vec![0.0, 2.0], vec![1e-3, 1e3]] {
+        out.push(distance_cases_for::<Cmp>("Compound", &Spec::Cmp { parts: cparts.clone(), weights: w }, &compound_lattice(&cparts)));
+    }
+    let c3 = vec![Spec::So3 { bounds: None, frac: None }, Spec::Rv { dim: 1, bounds: Some(vec![(-5.0, 5.0)]), frac: None }, Spec::So2 { bounds: None, frac: None }];
+    out.push(distance_cases_for::<Cmp>("Compound", &Spec::Cmp { parts: c3.clone(), weights: vec![1.0, 2.0, 0.25] }, &compound_lattice(&c3)));
+    for w in [0.0, 0.5, 3.0] {
+        let s2 = Spec::Se2 { weight: w, bounds: Some(vec![(-5.0, 5.0), (-5.0, 5.0), (-PI, PI)]) };
+        let (p2, _) = crate::refspace::as_parts(&s2).unwrap();
+        out.push(distance_cases_for::<Se2>("SE2", &s2, &compound_lattice(&p2)));
+        let s3 = Spec::Se3 { weight: w, bounds: Some(vec![(-5.0, 5.0), (-5.0, 5.0), (-5.0, 5.0)]) };
+        let (p3, _) = crate::refspace::as_parts(&s3).unwrap();
+        out.push(distance_cases_for::<Se3>("SE3", &s3, &compound_lattice(&p3)));
     }
     out
 }
